@@ -3,6 +3,7 @@
    returned value satisfies P. *)
 From ZV.Common Require Import Base.
 From ZV.C15 Require Import Model ProofsCore ProofsSeq ProofsLz ProofsPz ProofsHex ProofsIo ProofsAll.
+From ZV.C15 Require Import ModelBlob ModelCases ProofsBlob ModelIo2 ProofsIo2.
 Open Scope N_scope.
 
 (* every modelled parser (39 entry points), every argument, every byte string shorter than 2^60:
@@ -152,3 +153,136 @@ Check hex_decode_to_slice_total :
 Print Assumptions hex_decode_to_slice_total.
 Example hex_nontrivial : hex_dec [52; 56; 54; 53] = Ok [72; 101]%Z 2.
 Proof. vm_compute. reflexivity. Qed.
+
+(* ===================== extension: loaders, entropy decoders, file openers ===================== *)
+
+(* SortedUintVec::from_bytes: for every image below 2^60 bytes no panic (in particular the division by
+   offset_width comes after the configuration is validated), reservations within the image size, and
+   the loaded vector satisfies the invariant the accessors rely on *)
+Theorem sorted_uint_vec_load_total :
+  forall bytes, nlen bytes < 2 ^ 60 ->
+    good (fun s => suv_wf s /\ 32 + nlen (sv_index s) + nlen (sv_data s) = nlen bytes) (nlen bytes)
+         (suv_from_bytes bytes).
+Proof. exact suv_from_bytes_good. Qed.
+Check sorted_uint_vec_load_total :
+  forall bytes, nlen bytes < 2 ^ 60 ->
+    good (fun s => suv_wf s /\ 32 + nlen (sv_index s) + nlen (sv_data s) = nlen bytes) (nlen bytes)
+         (suv_from_bytes bytes).
+Print Assumptions sorted_uint_vec_load_total.
+Example sorted_uint_vec_load_nontrivial :
+  (s <- suv_from_bytes [2; 0; 0; 0; 0; 0; 0; 0; 6; 8; 16; 0; 0; 0; 0; 0; 2; 0; 0; 0; 0; 0; 0; 0; 2; 0; 0; 0; 0; 0; 0; 0; 44; 1; 5; 9] ;;
+   suv_get2 true s 0) = Ok (305, 309) 4.
+Proof. vm_compute. reflexivity. Qed.
+
+(* get / get2 / get_block on any vector that satisfies the load invariant: no panic, no reservation *)
+Theorem sorted_uint_vec_get_total :
+  forall s, suv_wf s -> forall i out_len,
+    good (fun v => v < W64) 0 (suv_get true s i) /\
+    good (fun '(a, b) => a < W64 /\ b < W64) 0 (suv_get2 true s i) /\
+    good (fun _ => True) 0 (suv_get_block s i out_len).
+Proof.
+  intros s WF i out_len. split; [apply suv_get_good; exact WF|].
+  split; [apply suv_get2_good; exact WF | apply suv_get_block_good; exact WF].
+Qed.
+Check sorted_uint_vec_get_total :
+  forall s, suv_wf s -> forall i out_len,
+    good (fun v => v < W64) 0 (suv_get true s i) /\
+    good (fun '(a, b) => a < W64 /\ b < W64) 0 (suv_get2 true s i) /\
+    good (fun _ => True) 0 (suv_get_block s i out_len).
+Print Assumptions sorted_uint_vec_get_total.
+Example sorted_uint_vec_wf_inhabited :
+  exists s a, suv_from_bytes suv_overflow_image = Ok s a /\ suv_wf s.
+Proof.
+  pose proof (suv_from_bytes_good suv_overflow_image) as H.
+  destruct (suv_from_bytes suv_overflow_image) as [s a| |] eqn:E; [|vm_compute in E; discriminate..].
+  exists s, a. split; [reflexivity|]. apply H. vm_compute. reflexivity.
+Qed.
+
+(* `block_min + delta as u64` as it was: a 41-byte image with a 64-bit sample panics in get(0);
+   with the division before the validation a 32-byte image of zeros divides by zero *)
+Theorem sorted_uint_vec_unfixed_refuted :
+  (exists bytes, nlen bytes = 41 /\ (s <- suv_from_bytes bytes ;; suv_get false s 0) = Panic) /\
+  (exists bytes, nlen bytes = 32 /\ suv_from_bytes_div_first bytes = Panic).
+Proof.
+  split.
+  - exists suv_overflow_image. split; [reflexivity | exact suv_get_unfixed_panics].
+  - exists (repeat 0 32). split; [reflexivity | exact suv_div_first_panics].
+Qed.
+Check sorted_uint_vec_unfixed_refuted :
+  (exists bytes, nlen bytes = 41 /\ (s <- suv_from_bytes bytes ;; suv_get false s 0) = Panic) /\
+  (exists bytes, nlen bytes = 32 /\ suv_from_bytes_div_first bytes = Panic).
+Print Assumptions sorted_uint_vec_unfixed_refuted.
+
+(* ZipOffsetBlobStore::load_from_reader: no panic, at most twice the file size (+ padding) reserved
+   whatever content_bytes / offsets_bytes declare, the loaded store satisfies the invariant of get;
+   the padding skip is below 16 and restores 16-byte alignment *)
+Theorem zip_offset_load_total :
+  (forall bytes, nlen bytes < 2 ^ 60 ->
+     good (fun z => zs_wf z /\ nlen (zs_content z) <= nlen bytes) (2 * nlen bytes + 16) (zo_load bytes)) /\
+  (forall cb, (16 - cb mod 16) mod 16 < 16 /\ (cb + (16 - cb mod 16) mod 16) mod 16 = 0).
+Proof. split; [exact zo_load_good | exact pad_expr]. Qed.
+Check zip_offset_load_total :
+  (forall bytes, nlen bytes < 2 ^ 60 ->
+     good (fun z => zs_wf z /\ nlen (zs_content z) <= nlen bytes) (2 * nlen bytes + 16) (zo_load bytes)) /\
+  (forall cb, (16 - cb mod 16) mod 16 < 16 /\ (cb + (16 - cb mod 16) mod 16) mod 16 = 0).
+Print Assumptions zip_offset_load_total.
+
+(* BlobStore::get on a loaded store: no panic (offsets validated before the subtraction and the
+   slice), the record is no longer than the content section, nothing larger is reserved *)
+Theorem zip_offset_get_total :
+  forall z id, zs_wf z ->
+    good (fun v => v = WILD \/ (0 <= v <= Z.of_N (nlen (zs_content z)))%Z) (nlen (zs_content z)) (zo_get z id).
+Proof. exact zo_get_good. Qed.
+Check zip_offset_get_total :
+  forall z id, zs_wf z ->
+    good (fun v => v = WILD \/ (0 <= v <= Z.of_N (nlen (zs_content z)))%Z) (nlen (zs_content z)) (zo_get z id).
+Print Assumptions zip_offset_get_total.
+Example zip_offset_wf_inhabited :
+  zs_wf (mkZs [1; 2; 3] (mkSuv 2 6 8 16 false [44; 1] [0; 3]) 0 0) /\
+  zo_get (mkZs [1; 2; 3] (mkSuv 2 6 8 16 false [44; 1] [0; 3]) 0 0) 0 = Err 0.
+Proof.
+  split; [|vm_compute; reflexivity].
+  constructor; [constructor; [constructor; vm_compute; discriminate | vm_compute; discriminate | reflexivity | reflexivity]
+               | reflexivity].
+Qed.
+
+(* DataInput::read_vec with the growth of the buffer counted: from the start and from EVERY state of the
+   chunk loop (got bytes read, cap bytes reserved, got <= cap <= got + CHUNK) the bytes still to be
+   reserved are bounded by the bytes really present plus one chunk, minus what is already reserved -
+   whatever the declared length is *)
+Theorem length_prefixed_read_bounded :
+  (forall fuel len got cap rest acc,
+     got <= cap -> cap <= got + CHUNK -> got + nlen rest + CHUNK <= ISIZE_MAX ->
+     good (fun '(v, rest') => nlen rest' <= nlen rest) (nlen rest + CHUNK - (cap - got))
+          (read_vec_loop_g false fuel len got cap rest acc)) /\
+  (forall len rest, nlen rest < 2 ^ 60 ->
+     good (fun '(v, rest') => nlen rest' <= nlen rest) (nlen rest + CHUNK) (read_vec_g false len rest)) /\
+  (forall data, nlen data < 2 ^ 60 -> good (fun _ => True) (nlen data + CHUNK) (sdi_lp_bytes_g false data)).
+Proof. split; [exact read_vec_loop_g_good | split; [exact read_vec_g_good | exact sdi_lp_bytes_g_good]]. Qed.
+Check length_prefixed_read_bounded :
+  (forall fuel len got cap rest acc,
+     got <= cap -> cap <= got + CHUNK -> got + nlen rest + CHUNK <= ISIZE_MAX ->
+     good (fun '(v, rest') => nlen rest' <= nlen rest) (nlen rest + CHUNK - (cap - got))
+          (read_vec_loop_g false fuel len got cap rest acc)) /\
+  (forall len rest, nlen rest < 2 ^ 60 ->
+     good (fun '(v, rest') => nlen rest' <= nlen rest) (nlen rest + CHUNK) (read_vec_g false len rest)) /\
+  (forall data, nlen data < 2 ^ 60 -> good (fun _ => True) (nlen data + CHUNK) (sdi_lp_bytes_g false data)).
+Print Assumptions length_prefixed_read_bounded.
+Example length_prefixed_read_bounded_nontrivial :
+  sdi_lp_bytes_g false (lying_input [128; 128; 128; 128; 128; 32]) = Err 131072.
+Proof. exact read_vec_fixed_on_witness. Qed.
+
+(* the seeded change (reserve the whole declared length once the first chunk has arrived): 6 + 65536
+   bytes request 2^40 bytes, 10 + 65536 bytes panic with a capacity overflow *)
+Theorem length_prefixed_read_regressed_refuted :
+  (exists data, nlen data = 65542 /\ alloc_of (sdi_lp_bytes_g true data) = 2 ^ 40) /\
+  (exists data, nlen data = 65546 /\ sdi_lp_bytes_g true data = Panic).
+Proof.
+  split.
+  - exists (lying_input [128; 128; 128; 128; 128; 32]). split; [vm_compute; reflexivity | exact read_vec_regressed_allocates].
+  - exists (lying_input [128; 128; 128; 128; 128; 128; 128; 128; 128; 1]). split; [vm_compute; reflexivity | exact read_vec_regressed_panics].
+Qed.
+Check length_prefixed_read_regressed_refuted :
+  (exists data, nlen data = 65542 /\ alloc_of (sdi_lp_bytes_g true data) = 2 ^ 40) /\
+  (exists data, nlen data = 65546 /\ sdi_lp_bytes_g true data = Panic).
+Print Assumptions length_prefixed_read_regressed_refuted.
